@@ -38,6 +38,16 @@ def render(root, sc, trace, rng):
             srcs.append('"//nosuchpkg%d:x"' % t)                  # the package does not exist
         fail = fault[t - 1] == "cmdfail"
         slp = rng.choice(["", "", "sleep 0.0%d; " % rng.randint(1, 5)])
+        if sc.get("twins"):
+            # b (t%3==2) litters its temporary directory so that finishing its build step (cleaning up) is slow;
+            # a (t%3==1) ends as soon as b's output has been moved into plz-out, i.e. while b is still being finished;
+            # c (t%3==0) depends on both and reaches b right then
+            if t % 3 == 2:
+                slp = "mkdir junk && (cd junk && seq 1 15000 | xargs touch); "
+            elif t % 3 == 1:
+                slp = "while [ ! -e %s/plz-out/gen/%s/t%d.out ]; do sleep 0.01; done; " % (root, pkg[t + 1], t + 1)
+            else:
+                slp = ""
         cmd = ("printf '%%s\\n' '{\"ev\":\"Start\",\"t\":\"%d\"}' >> %s; %s" % (t, trace, slp)
                + ("printf '%%s\\n' '{\"ev\":\"End\",\"t\":\"%d\",\"rc\":1}' >> %s; exit 1" % (t, trace) if fail else
                   "cat $SRCS /dev/null > $OUT; printf '%%s\\n' '{\"ev\":\"End\",\"t\":\"%d\",\"rc\":0}' >> %s" % (t, trace)))
@@ -255,6 +265,16 @@ def extra_scenarios(ctx, count):
         out.append(dict(n=n, deps=deps, req=req, fail=fail, keepGoing=rng.random() < 0.5,
                         expectOK=not (need & bad), buildable=sorted(set(range(1, n + 1)) - bad), threads=rng.choice([1, 4, 16]),
                         origin="random-large-dag", declared=declared, provides=provides, requirers=requirers))
+    # "twins": many independent pairs of equally slow dependencies finishing at the same instant with a dependent on
+    # both -- the dependent reaches its second dependency while that one is between "command ended" and "finished
+    # building", the narrow window in which a too-early start is possible
+    for i in range(max(2, count // 4)):
+        k = 4
+        deps, n = [], 3 * k
+        for j in range(k):
+            deps += [[], [], [3 * j + 1, 3 * j + 2]]
+        out.append(dict(n=n, deps=deps, req=[3 * j + 3 for j in range(k)], fail=[], keepGoing=False, expectOK=True,
+                        buildable=list(range(1, n + 1)), threads=16, origin="twins", twins=True))
     return out
 
 
